@@ -75,7 +75,7 @@ def chain_carried_only(i, p, outer, c):
 CHAINS = dict(direct=chain_direct, affine=chain_affine, shared=chain_shared, carried_only=chain_carried_only)
 
 LOOP_SHAPES = ([dict(chain=ch, extra=ex, variant="ok") for ch in ("direct", "affine", "shared", "carried_only") for ex in ("none", "second_setup")]
-               + [dict(chain="affine", extra="none", variant=v) for v in ("impure_input", "launch_before", "nested_launch_before", "no_launch", "launch_in_nested", "not_loop_carried", "no_in_state")])
+               + [dict(chain="affine", extra="none", variant=v) for v in ("impure_input", "launch_before", "launch_amid_inputs", "nested_launch_before", "no_launch", "launch_in_nested", "not_loop_carried", "no_in_state")])
 
 
 def build_loop(sh, sym):
@@ -96,6 +96,9 @@ def build_loop(sh, sym):
     pre = []
     if variant == "launch_before":
         pre = [accfg.LaunchOp([], [], l0)]
+    if variant == "launch_amid_inputs":
+        # a launch on the loop-carried state BETWEEN an early-computed operand of the setup and the setup itself
+        ops = ops[:2] + [accfg.LaunchOp([], [], l0)] + ops[2:]
     extra_uses = []
     if variant == "nested_launch_before":
         # a launch on the loop-carried state, guarded by a region op (e.g. scf.if), in front of the setup
